@@ -17,7 +17,7 @@ def cpPath? (s : String) : Option Catalog.Path :=
   if s == "" then some [] else (s.splitOn ";").mapM cpStr?
 
 def showStr (s : Str) : String := ",".intercalate (s.map fun c => toString c.toNat)
-def showPath (p : Catalog.Path) : String := ";".intercalate (p.map showStr)
+def showCatPath (p : Catalog.Path) : String := ";".intercalate (p.map showStr)
 
 /-- The digest function the model is run with: the harness's table; an entry the harness did not
 announce gets a digest that cannot collide with a real one. -/
@@ -54,7 +54,7 @@ def catalogHandle (st : CatalogSt) (cmd : String) (a : Args) : CatalogSt × Stri
     match cpPath? (a.get "root"), cpStr? (a.get "cat"), cpStr? (a.get "e") with
     | some root, some cat, some e =>
       if validName cat then
-        (st, s!"path={showPath (entryPath (shaOf st.sha) root cat e)} dir={showPath (catalogDir root cat)}")
+        (st, s!"path={showCatPath (entryPath (shaOf st.sha) root cat e)} dir={showCatPath (catalogDir root cat)}")
       else (st, "rejected")
     | _, _, _ => (st, "bad-op")
   | "catalog.reset" =>
